@@ -134,6 +134,9 @@ type ClusterOpts struct {
 	ExtraPeers map[uint64]string
 	// GenTimeout (optional) is the generation timeout of every node (default: one hour).
 	GenTimeout time.Duration
+	// OwnPassphrases gives every node a generation passphrase of its own ("gen-<id>"), known to its own unlocker only
+	// (as the documentation recommends for deployments).
+	OwnPassphrases bool
 }
 
 // NewCluster builds the instances.
@@ -153,7 +156,13 @@ func NewCluster(o ClusterOpts) (*Cluster, error) {
 	}
 	for _, id := range o.IDs {
 		n := &Node{ID: id, Name: nodeName(id), cluster: c}
-		r, err := NewSignerRig(SignerOpts{
+		var genPass string
+		var acctPasses []string
+		if o.OwnPassphrases {
+			genPass = fmt.Sprintf("gen-%d", id)
+			acctPasses = []string{genPass}
+		}
+		r, err := NewSignerRig(SignerOpts{GenPass: genPass, AcctPasses: acctPasses,
 			Wallets: []string{"Wallet 1"}, DistWallets: []string{DistWallet}, Permissions: perms, Full: true,
 			ProcessID: id, PeersMap: peersMap, Sender: &clusterSender{c: c, from: n}, GenTimeout: o.GenTimeout,
 			PeersWrap: func(p peers.Service) peers.Service { return &orderedPeers{Service: p, c: c, node: id} },
@@ -417,9 +426,15 @@ func (s *clusterSender) SendContribution(_ context.Context, peer *core.Endpoint,
 
 // Generate asks node `initiator` to generate a distributed account, as a client with the default identity.
 func (c *Cluster) Generate(initiator uint64, account string, threshold, participants uint32) ([]byte, []*core.Endpoint, error) {
+	return c.GenerateWith(initiator, account, []byte("pass"), threshold, participants)
+}
+
+// GenerateWith is Generate with the client's passphrase given (nil: none, every participant protects its share with its
+// own generation passphrase).
+func (c *Cluster) GenerateWith(initiator uint64, account string, passphrase []byte, threshold, participants uint32) ([]byte, []*core.Endpoint, error) {
 	n := c.Nodes[initiator]
 	creds := &checker.Credentials{Client: DefaultClient, RequestID: "gen", IP: "10.0.0.1"}
-	return n.Rig.Process.OnGenerate(n.Rig.Ctx, creds, account, []byte("pass"), threshold, participants)
+	return n.Rig.Process.OnGenerate(n.Rig.Ctx, creds, account, passphrase, threshold, participants)
 }
 
 // Poly is the secret polynomial of a (possibly virtual) participant.
